@@ -89,6 +89,18 @@ theorem sign_matters : ¬ (STab.zero 1).Spn (PRow.Zq 0 true) := by
 theorem canonical_form_returns_canon (t c : STab) (h : t.canonicalForm = .ok c) : STab.Canon c :=
   canonicalForm_canon t c h
 
+/-- **`canonical_form` returns exactly on the independent generating sets** (every n, real commuting rows): its final
+    `assert pivot[0] == n` passes iff no non-empty subset of the generators multiplies to `±I` (`STab.Indep`; equivalently
+    the 2n-bit vectors are linearly independent over GF(2), `C11.independent_iff_linear_independent`), and the only error it
+    can raise is that `AssertionError`. -/
+theorem canonical_form_returns_iff_independent (t : STab) (hg : t.Good) :
+    ((∃ c, t.canonicalForm = .ok c) ↔ t.Indep) ∧ ∀ e, t.canonicalForm = .error e → e = .assertion := by
+  refine ⟨canonicalForm_returns_iff t hg, fun e h => ?_⟩
+  unfold STab.canonicalForm at h
+  split at h
+  · cases h
+  · injection h with h; exact h.symm
+
 /-- **Uniqueness of the shape** (every n): two real commuting tableaux in `Canon` shape that generate the same signed
     group are equal row by row — Pauli strings *and* sign bits (uniqueness of the reduced row echelon form over the
     2n-bit symplectic vectors with the pivot order of `canonical_form`; a sign is determined by its Pauli string because
